@@ -11,6 +11,11 @@ bytes) -> deserialize; EventQueueManager.inject_message on a real Session/Proxie
   clause msg-llsd-roundtrip   dict route: same block names (in order), multiplicities and values (floats bit-exact, vectors by
                               class+components, str stays str, bytes stay bytes)
   clause msg-xml-roundtrip    the same through the XML bytes
+  clause msg-llsd-input-intact  serialize() does not change the Message and deserialize(dict) does not change the caller's
+                              dict (deep canonical snapshot before/after)
+  clause msg-llsd-repeatable  serialize twice on one Message gives identical output; deserialize twice on one dict object both
+                              succeed and equal the original; deserialize(d) then format_xml(d) -> deserialize equals it too
+                              (http_event_manager deserializes an event and then forwards the same dict as XML)
   clause msg-eq-inject        the injected event equals the serializer output (value and LLSD type), exactly one event is
                               queued and exactly one PlacesQuery wake-up datagram is sent
 
@@ -696,6 +701,28 @@ def compare_msg(part: Part, clause: str, route: str, dec, case, exp_blocks, vtyp
     return ok
 
 
+def msg_snapshot(msg):
+    """Deep, value-only snapshot of a Message's blocks (type name + repr per variable; -0.0 and str/bytes stay distinct)."""
+    return [(bname, [[(vn, type(v).__name__, repr(v)) for vn, v in blk.vars.items()] for blk in blist])
+            for bname, blist in msg.blocks.items()]
+
+
+def _first_diff(a, b, path="$") -> str:
+    if type(a) is not type(b):
+        return f"{path}: {_short(a)} -> {_short(b)}"
+    if isinstance(a, dict):
+        if set(a) != set(b):
+            return f"{path}: keys {sorted(a)!r} -> {sorted(b)!r}"
+        for k in a:
+            if a[k] != b[k]:
+                return _first_diff(a[k], b[k], f"{path}[{k!r}]")
+    if isinstance(a, (list, tuple)) and len(a) == len(b):
+        for i, (x, y) in enumerate(zip(a, b)):
+            if x != y:
+                return _first_diff(x, y, f"{path}[{i}]")
+    return f"{path}: {_short(a)} -> {_short(b)}"
+
+
 def _culprit_types(msg, vtypes, op: str) -> List[str]:
     """Which template types make LLSDDataPacker.pack raise for this message's values (site attribution only)."""
     out = set()
@@ -766,6 +793,7 @@ def check_msg_case(part: Part, gen: msggen.Gen, case: dict, ser: LLSDMessageSeri
     part.count("msg_evaluations")
     exp_blocks = gen.expected_values(case)
     msg = gen.lib_message(case)
+    msg_before = msg_snapshot(msg)
     # ---- dict route
     try:
         d = ser.serialize(msg, as_dict=True)
@@ -776,6 +804,23 @@ def check_msg_case(part: Part, gen: msggen.Gen, case: dict, ser: LLSDMessageSeri
         part.outcome(("msg", "serialize-raises", type(e).__name__))
         part.count("eq_skipped_serialize_failed")
         return
+    # ---- serialize() leaves the message alone and is repeatable on the same Message object
+    part.count("aliasing_checks")
+    if msg_snapshot(msg) != msg_before:
+        part.violation("msg-llsd-input-intact", "LLSDMessageSerializer.serialize:aliasing", witness,
+                       f"serialize(as_dict=True) changed the Message: {_first_diff(msg_before, msg_snapshot(msg))}")
+    try:
+        d_again = ser.serialize(msg, as_dict=True)
+    except Exception as e:
+        part.violation("msg-llsd-repeatable", "LLSDMessageSerializer.serialize:second-call", witness,
+                       f"second serialize(as_dict=True) of the same Message raised {type(e).__name__}: {e}")
+    else:
+        if canon(d_again) != canon(d):
+            part.violation("msg-llsd-repeatable", "LLSDMessageSerializer.serialize:second-call", witness,
+                           f"second serialize of the same Message differs: {_short(canon(d_again))} != {_short(canon(d))}")
+    # ---- deserialize(dict): round trip, caller's dict untouched, repeatable on the same dict object, and the same dict can
+    #      still be forwarded as XML afterwards (what http_event_manager does with an event it has just deserialized)
+    d_before = canon(d)
     dict_ok = False
     try:
         m2 = ser.deserialize(d)
@@ -784,6 +829,24 @@ def check_msg_case(part: Part, gen: msggen.Gen, case: dict, ser: LLSDMessageSeri
             part.violation("msg-llsd-roundtrip", site, witness, f"deserialize(dict) raised {type(e).__name__}: {e}")
     else:
         dict_ok = compare_msg(part, "msg-llsd-roundtrip", "dict", m2, case, exp_blocks, vtypes, witness)
+    if canon(d) != d_before:
+        part.violation("msg-llsd-input-intact", "LLSDMessageSerializer.deserialize:aliasing", witness,
+                       f"deserialize(dict) rewrote the caller's LLSD dict: {_first_diff(d_before, canon(d))}")
+    if dict_ok:
+        try:
+            m2b = ser.deserialize(d)
+        except Exception as e:
+            part.violation("msg-llsd-repeatable", "LLSDMessageSerializer.deserialize:second-call", witness,
+                           f"second deserialize of the same dict raised {type(e).__name__}: {str(e)[:200]}")
+        else:
+            compare_msg(part, "msg-llsd-repeatable", "dict-2nd-call", m2b, case, exp_blocks, vtypes, witness)
+        try:
+            m2c = ser.deserialize(llsd.format_xml(d))
+        except Exception as e:
+            part.violation("msg-llsd-repeatable", "LLSDMessageSerializer.deserialize:then-format_xml", witness,
+                           f"format_xml(event) -> deserialize after deserialize(event) raised {type(e).__name__}: {str(e)[:200]}")
+        else:
+            compare_msg(part, "msg-llsd-repeatable", "dict-then-xml", m2c, case, exp_blocks, vtypes, witness)
     # ---- XML route (only attributed separately when the dict route is clean: otherwise the same root cause)
     xml = None
     try:
@@ -796,6 +859,17 @@ def check_msg_case(part: Part, gen: msggen.Gen, case: dict, ser: LLSDMessageSeri
     else:
         if dict_ok:
             compare_msg(part, "msg-xml-roundtrip", "xml", m3, case, exp_blocks, vtypes, witness)
+        try:
+            xml_again = ser.serialize(msg)  # the Message object that has already been serialized twice above
+        except Exception as e:
+            part.violation("msg-llsd-repeatable", "LLSDMessageSerializer.serialize:second-call", witness, f"XML serialize raised {e!r}")
+        else:
+            if xml_again != xml:
+                part.violation("msg-llsd-repeatable", "LLSDMessageSerializer.serialize:second-call", witness,
+                               "XML of an already-serialized Message differs from the XML of a fresh one")
+    if msg_snapshot(msg) != msg_before:
+        part.violation("msg-llsd-input-intact", "LLSDMessageSerializer.serialize:aliasing", witness,
+                       f"serialize() changed the Message: {_first_diff(msg_before, msg_snapshot(msg))}")
     # ---- consumer
     _, _, region, transport = _eq_world()
     eqm = region.eq_manager
